@@ -67,6 +67,10 @@ namespace randomx {
 		uint32_t spAddr1 = mem.ma;
 
 		for(unsigned ic = 0; ic < RANDOMX_PROGRAM_ITERATIONS; ++ic) {
+#ifdef RANDOMX_VERIF
+			if (randomx_verif::hooks().iterLimit != 0 && ic >= randomx_verif::hooks().iterLimit)
+				break;
+#endif
 			uint64_t spMix = nreg.r[config.readReg0] ^ nreg.r[config.readReg1];
 			spAddr0 ^= spMix;
 			spAddr0 &= ScratchpadL3Mask64;
@@ -81,6 +85,13 @@ namespace randomx {
 
 			for (unsigned i = 0; i < RegisterCountFlt; ++i)
 				nreg.e[i] = maskRegisterExponentMantissa(config, rx_cvt_packed_int_vec_f128(scratchpad + spAddr1 + 8 * (RegisterCountFlt + i)));
+
+#ifdef RANDOMX_VERIF
+			if (auto verifCb = randomx_verif::hooks().iterBegin) {
+				randomx_verif::IterInfo verifInfo = { ic, spAddr0, spAddr1, &nreg, &mem, scratchpad, &config, datasetOffset };
+				verifCb(randomx_verif::hooks().ctx, verifInfo);
+			}
+#endif
 
 			executeBytecode(bytecode, scratchpad, config, randomx_vm::getFlags());
 
@@ -122,6 +133,13 @@ namespace randomx {
 
 			for (unsigned i = 0; i < RegisterCountFlt; ++i)
 				rx_store_vec_f128((double*)(scratchpad + spAddr0 + 16 * i), nreg.f[i]);
+
+#ifdef RANDOMX_VERIF
+			if (auto verifCb = randomx_verif::hooks().iterEnd) {
+				randomx_verif::IterInfo verifInfo = { ic, spAddr0, spAddr1, &nreg, &mem, scratchpad, &config, datasetOffset };
+				verifCb(randomx_verif::hooks().ctx, verifInfo);
+			}
+#endif
 
 			spAddr0 = 0;
 			spAddr1 = 0;
